@@ -243,6 +243,7 @@ type NumericExpr struct {
 
 	Fields            []string
 	IsFieldsPopulated bool
+	fieldsLock        sync.Mutex // Guards Fields and IsFieldsPopulated; parallel query chains share the expression.
 
 	// Only used when IsTerminal is false.
 	Op           string // Including arithmetic, mathematical and text functions ops
@@ -4075,40 +4076,31 @@ func (self *NumericExpr) GetFields() []string {
 		return nil
 	}
 
+	self.fieldsLock.Lock()
+	defer self.fieldsLock.Unlock()
+
 	if self.IsFieldsPopulated {
 		return self.Fields
 	}
 
-	fields := make([]string, 0)
+	// Set Fields before IsFieldsPopulated, so the flag never says more than
+	// is there.
 	if self.Val != nil {
-		self.Fields = append(fields, self.Val.GetFields()...)
-		self.IsFieldsPopulated = true
-		return self.Fields
-	}
-	if self.IsTerminal {
-		if self.Op == "now" {
-			self.IsFieldsPopulated = true
-			self.Fields = fields
-			return self.Fields
-		}
-		if self.ValueIsField {
-			self.IsFieldsPopulated = true
+		self.Fields = append(make([]string, 0), self.Val.GetFields()...)
+	} else if self.IsTerminal {
+		if self.Op != "now" && self.ValueIsField {
 			self.Fields = []string{self.Value}
-			return self.Fields
 		} else {
-			self.IsFieldsPopulated = true
 			self.Fields = []string{}
-			return self.Fields
 		}
 	} else if self.Right != nil {
-		self.IsFieldsPopulated = true
 		self.Fields = append(self.Left.GetFields(), self.Right.GetFields()...)
-		return self.Fields
 	} else {
-		self.IsFieldsPopulated = true
 		self.Fields = self.Left.GetFields()
-		return self.Fields
 	}
+	self.IsFieldsPopulated = true
+
+	return self.Fields
 }
 
 func getValueAsString(fieldToValue map[string]sutils.CValueEnclosure, field string) (string, error) {
